@@ -424,6 +424,13 @@ def simulation_failures(n, seed, limit=3):
         # (the code compares |q - round(q)| resp. |1/q - round(1/q)| with 1e-8 absolutely: stay at 4e-9 on that scale)
         f = sign * ratio * fpulse * (1 + float(rng.choice([0.0, 0.0, 4e-9, -4e-9])) / max(ratio, 1 / ratio))
         unit_a = rng.choice(['deg', 'rad'])
+        # slit edges stored as whole degrees in an integer array (as in instrument files): the openings are the same numbers
+        int_edges = i % 5 == 4
+        if int_edges:
+            unit_a = 'deg'
+            cuts = np.sort(rng.choice(np.arange(0, 360), 2 * nslits, replace=False)).astype(float)
+            shift = float(rng.integers(-20, 21))
+            begin, end = cuts[0::2] + shift, cuts[1::2] + shift
         conv = (lambda d: d) if unit_a == 'deg' else np.deg2rad
         funit = rng.choice(['Hz', 'kHz'])
         fval = f if funit == 'Hz' else f / 1000
@@ -431,9 +438,10 @@ def simulation_failures(n, seed, limit=3):
         phase = rng.uniform(-720, 720)
         ch = dc.DiskChopper(axle_position=sc.vector([0, 0, float(rng.uniform(5, 30))], unit='m'), frequency=sc.scalar(fval, unit=funit),
                             beam_position=sc.scalar(float(conv(beam)), unit=unit_a), phase=sc.scalar(float(conv(phase)), unit=unit_a),
-                            slit_begin=sc.array(dims=['slit'], values=conv(begin), unit=unit_a), slit_end=sc.array(dims=['slit'], values=conv(end), unit=unit_a))
+                            slit_begin=sc.array(dims=['slit'], values=conv(begin).astype('int64') if int_edges else conv(begin), unit=unit_a),
+                            slit_end=sc.array(dims=['slit'], values=conv(end).astype('int64') if int_edges else conv(end), unit=unit_a))
         pf = sc.scalar(fpulse, unit='Hz')
-        desc = {'id': f'case{i}', 'index': i, 'seed': seed, 'n_slits': nslits, 'frequency_ratio': float(sign * ratio), 'angle_unit': str(unit_a),
+        desc = {'integer_edges': bool(int_edges), 'id': f'case{i}', 'index': i, 'seed': seed, 'n_slits': nslits, 'frequency_ratio': float(sign * ratio), 'angle_unit': str(unit_a),
                 'frequency': f'{fval!r} {funit}', 'pulse_frequency': f'{fpulse!r} Hz'}
         try:
             to = ch.time_offset_open(pulse_frequency=pf).to(unit='s').values
